@@ -136,10 +136,18 @@ def run(ctx, H):
         i = sorted(corr)[0]
         ctx.violation("corr-%d" % i, {"kind": "correspondence broken: Json.v vs src/serde_json.rs", "theorem_or_correspondence": "corr_c13",
                                       "text": text(docs[i]), "impl": obs[i]}, no_input=True)
+    # documents deeper than the text parser accepts (127), built programmatically: serde_json::Value has no depth limit
+    deep = [{"mode": "json_deep", "kind": k, "depth": d} for k in ("arr", "obj", "mix") for d in ((126, 127, 128, 129, 200) if ctx.tier == "quick" else (126, 127, 128, 129, 200, 500, 1000))]
+    dobs = C.run_harness(H.binary, deep, shards=1)
+    for c, o in zip(deep, dobs):
+        if not (o.get("deser_same") and o.get("from_same") and o.get("kinds_agree") and o.get("calls") == 0 and not o.get("panicked")):
+            ctx.violation("deep-%s-%d" % (c["kind"], c["depth"]), {"kind": "serde_json bridge on a deeply nested document (built programmatically, depth beyond the text parser's limit): "
+                                                                           "a round trip changed the document / failed / the error type was called", "document": c, "impl": o})
     ctx.coverage.update({
-        "evaluations": len(docs), "distinct_nontrivial": len({text(docs[i]) for i in kept}),
+        "deep_documents": len(deep),
+        "evaluations": len(docs) + len(deep), "distinct_nontrivial": len({text(docs[i]) for i in kept}),
         "rule": "JSON texts parsed by serde_json: %d small documents enumerated exhaustively (leaves null/1/-1/1.5/\"s\", <=2 children, <=2 levels), every "
-                "boundary literal (0, -0, u64::MAX(+1), i64::MIN(-1), 2^53+-1, subnormals, exponents, huge integers), %d random nested documents; "
+                "boundary literal (0, -0, u64::MAX(+1), i64::MIN(-1), 2^53+-1, subnormals, exponents, huge integers), %d random nested documents, plus documents nested 126..200 (thorough: ..1000) levels deep built programmatically (arrays, objects, alternating); "
                 "non-trivial = distinct text accepted by serde_json's parser" % (n_exh, nrand),
         "refused_by_parser": len(docs) - len(kept),
         "samples": [text(docs[3]), text(docs[n_exh + 5]), text(docs[-1])[:300]],
